@@ -54,6 +54,40 @@ theorem memoryless_link (kPD lossdB erdB Vpi biasM vout bias : ℝ) (sps i : ℕ
   have := decide_level v0 v1 hlev b
   cases b <;> simpa using this
 
+/-! ### drive arrangements: only the SUM of the two biases matters, and only modulo 2·Vπ -/
+
+/-- the DAC bias and the MZM bias are interchangeable: a drive `x·Vout + bias` into a modulator biased at `biasM` is
+    detected exactly as the drive `x·Vout` into a modulator biased at `biasM + bias` (the push-pull arrangement
+    `DAC(bias = −Vπ/2) → MZM(bias = +Vπ/2)` of the MZM docstring is the unbiased drive into an unbiased modulator) -/
+theorem rx_bias_interchange (kPD lossdB erdB Vpi biasM vout bias : ℝ) (b : Bool) :
+    rx kPD lossdB erdB Vpi biasM (lvl vout bias b)
+      = rx kPD lossdB erdB Vpi (biasM + bias) (lvl vout ((0 : ℕ) : ℝ) b) := by
+  have h : Gen.OptDev.mzmG Vpi biasM (lvl vout bias b) = Gen.OptDev.mzmG Vpi (biasM + bias) (lvl vout ((0 : ℕ) : ℝ) b) := by
+    simp only [Gen.OptDev.mzmG, lvl]; push_cast; ring
+  simp only [rx, mzmHu, h]
+
+theorem received_bias_interchange (kPD lossdB erdB Vpi biasM vout bias : ℝ) (sps : ℕ) (bits : List Bool) :
+    received kPD lossdB erdB Vpi biasM vout bias sps bits
+      = received kPD lossdB erdB Vpi (biasM + bias) vout ((0 : ℕ) : ℝ) sps bits := by
+  rw [received_slots, received_slots]
+  congr 1
+  apply List.map_congr_left
+  intro b _
+  exact rx_bias_interchange kPD lossdB erdB Vpi biasM vout bias b
+
+/-- the detected voltage is periodic in the bias with period 2·Vπ (the field changes sign, the square law does not see it):
+    every arrangement whose biases sum to Vπ + 2k·Vπ is the same link -/
+theorem rx_bias_period (kPD lossdB erdB Vpi biasM u : ℝ) (hV : Vpi ≠ 0) :
+    rx kPD lossdB erdB Vpi (biasM + 2 * Vpi) u = rx kPD lossdB erdB Vpi biasM u := by
+  have h : Gen.OptDev.mzmG Vpi (biasM + 2 * Vpi) u = Gen.OptDev.mzmG Vpi biasM u + Real.pi := by
+    have h2 : (Gen.OptDev.lit 2 : ℝ) = 2 := by simp [Gen.OptDev.lit]
+    simp only [Gen.OptDev.mzmG, Transc.pi_real, h2]
+    field_simp
+    ring
+  simp only [rx, mzmHu, h, Gen.OptDev.mzmHre, Gen.OptDev.mzmHim, Cx.normSq, Transc.cos_real, Transc.sin_real,
+    Real.cos_add_pi, Real.sin_add_pi]
+  ring
+
 /-- the two polarisation layouts give the same detected voltage: a two-polarisation carrier whose unselected
     polarisation is extinguished by the MZM contributes |0|² = 0 to the square law -/
 theorem layouts_agree (r Rl : ℝ) (ax h : Cx ℝ) :
